@@ -8,19 +8,19 @@ PY = "/venv/bin/python"
 
 CHECKS = {
     "C01": dict(cat="exploration",
-        text="Held on the generated executions only: real GeminiServerProtocol driven by scripted event orders on a virtual clock (L1, incl. the production wiring captured from start_server on hostile capsules) and through both real TLS layers in-process (L2); a response-stream automaton judges every connection (exactly one well-formed header, body only for 2x, closed, nothing after). Handler/middleware outcomes cover 16 exception types (incl. CancelledError, exceptions whose __str__ raises), hostile messages, wrongly typed response fields and message-less refusals. L2 also runs against a pipe of 16 B - 4 KiB whose client reads whatever arrives (what the network has not taken is still owed). One process also answers hundreds (thorough: thousands) of distinct valid request lines and then the early ones again.",
+        text="Held on the generated executions only: real GeminiServerProtocol driven by scripted event orders on a virtual clock (L1, incl. the production wiring captured from start_server on hostile capsules) and through both real TLS layers in-process (L2); a response-stream automaton judges every connection (exactly one well-formed header, body only for 2x, closed, nothing after). Handler/middleware outcomes cover 16 exception types (incl. CancelledError, exceptions whose __str__ raises), hostile messages, wrongly typed response fields and message-less refusals. L2 also runs against a pipe of 16 B - 4 KiB whose client reads whatever arrives (what the network has not taken is still owed). One process also answers hundreds (thorough: thousands) of distinct valid request lines and then the early ones again. Titan lines with parameters at the edge of what fits in a line (sizes of up to 900 digits, very long media types and tokens) are part of the request mix.",
         note="FakeTransport models CPython 3.12 sslproto transport semantics; reach bounded by the generators (evidence: input_class / outcome / state_tuples).",
         tech="runtime monitoring: response-stream automaton over recorded connection traces (virtual-time protocol simulator + in-process TLS sandwich)"),
     "C02": dict(cat="exploration",
-        text="Held on the generated trees and spellings: StaticFileHandler.handle is called on real directory trees (symlink topologies, prefix-sharing siblings, root via symlink) with traversal spellings aimed at every outside file; unique sentinels in every file decide containment and availability; a live sample goes through start_server. Document roots also change under running handlers (entries replaced by outside links and restored), judged against the tree at each request. Trees contain zero-byte files; every handler call runs under a budget of the process's own CPU time, so a request that is never answered is observed as such.",
+        text="Held on the generated trees and spellings: StaticFileHandler.handle is called on real directory trees (symlink topologies, prefix-sharing siblings, root via symlink) with traversal spellings aimed at every outside file; unique sentinels in every file decide containment and availability; a live sample goes through start_server. Document roots also change under running handlers (entries replaced by outside links and restored), judged against the tree at each request. Trees contain zero-byte files; every handler call runs under a budget of the process's own CPU time, so a request that is never answered is observed as such. The surroundings hold a sibling that is the root's own name in another letter case, and pages of several KiB served by name and as a directory's index.",
         note="Containment oracle uses os.path.realpath/commonpath; availability only required for symlink-free, UTF-8 named files (literal spelling only for pchar names).",
         tech="runtime monitoring: sentinel-token oracle on responses + audit-hook trail of open/listdir (L0 handler calls, L3 live sample)"),
     "C03": dict(cat="exploration",
-        text="Held on the explored histories: TOFUDatabase histories (exhaustive to depth 4/5) and GeminiClient get/upload/redirect histories against scripted TLS peers whose certificates are swapped (RSA/EC/Ed25519 and DER-tampered certificates the X.509 parser rejects), over a 16-operation alphabet (quick: a fifth of the depth-3 histories; thorough: all of depth 3 and a third of depth 4) plus random long histories; after every step outcome and known_hosts are compared with an abstract pin map. Histories include replace-mode imports, export->import restores and calls inside `async with`; a separate scenario keeps 2-4 calls in flight towards an unpinned host whose peer rotates its certificate per connection. Pool certificates share subject, issuer and serial number (different keys); peers that answer before the request (end of handshake + response + close_notify in one segment) are included. One store object is also taken through thousands of hosts (thorough: 70 000) and asked again about the early ones with pinned and other certificates.",
+        text="Held on the explored histories: TOFUDatabase histories (exhaustive to depth 4/5) and GeminiClient get/upload/redirect histories against scripted TLS peers whose certificates are swapped (RSA/EC/Ed25519 and DER-tampered certificates the X.509 parser rejects), over a 16-operation alphabet (quick: a fifth of the depth-3 histories; thorough: all of depth 3 and a third of depth 4) plus random long histories; after every step outcome and known_hosts are compared with an abstract pin map. Histories include replace-mode imports, export->import restores and calls inside `async with`; a separate scenario keeps 2-4 calls in flight towards an unpinned host whose peer rotates its certificate per connection. Pool certificates share subject, issuer and serial number (different keys); peers that answer before the request (end of handshake + response + close_notify in one segment) are included. One store object is also taken through thousands of hosts (thorough: 70 000) and asked again about the early ones with pinned and other certificates. Pins that are almost the presented fingerprint (one digit off, swapped, doubled, missing) are imported and verified.",
         note="Pin key = (lower-cased host, port) as derived from the URL; TOFU-off runs only check that the store stays untouched.",
         tech="runtime monitoring: step-by-step comparison of real outcomes and the sqlite table with a reference pin-map model over live TLS histories"),
     "C04": dict(cat="exploration",
-        text="Held on the explored chains: real MiddlewareChain over real RateLimiter/AccessControl/CertificateAuth and scripted allow/deny/raise/slow components in every order (1-3 components), gemini and titan requests, reads and disconnects while the chain is pending, both TLS layers; recording proxies, spy handlers, an audit hook and tree snapshots give the per-connection order of chain/handler/filesystem events. A listed certificate, look-alikes (same names and serial, other key), unlisted and no certificate take turns on one process (L1 and PyOpenSSL). One chain also lives through a crowd of thousands of other addresses between a drained client's visits.",
+        text="Held on the explored chains: real MiddlewareChain over real RateLimiter/AccessControl/CertificateAuth and scripted allow/deny/raise/slow components in every order (1-3 components), gemini and titan requests, reads and disconnects while the chain is pending, both TLS layers; recording proxies, spy handlers, an audit hook and tree snapshots give the per-connection order of chain/handler/filesystem events. A listed certificate, look-alikes (same names and serial, other key), unlisted and no certificate take turns on one process (L1 and PyOpenSSL). One chain also lives through a crowd of thousands of other addresses between a drained client's visits. Deny entries spelling the peer's address in other textual forms (IPv6 upper case / uncompressed, /128, /32, covering blocks) and two connections in flight on one chain are covered.",
         note="Expected decision is computed from configuration by the harness; scripted deny responses are well-formed.",
         tech="runtime monitoring: per-connection event-order check (mw_start/mw_end/handler_start/fs events) on the virtual-time simulator and TLS sandwich"),
     "C05": dict(cat="exploration",
@@ -28,15 +28,15 @@ CHECKS = {
         note="Rule prefixes are directory-level; capsules have no symlinks; over-blocking judged only for canonical spellings.",
         tech="runtime monitoring: sentinel-identified resource vs first-matching-rule policy model, real TLS client certificates (L2 sandwich, L3 live)"),
     "C06": dict(cat="exploration",
-        text="Held on the executions produced: every response stream decrypted by a real TLS client (in-process sandwich on both backends with ciphertext segmentations and a bounded pipe towards readers stalling up to 29 virtual seconds through the captured start_server wiring, plus live loopback servers with four reader profiles) is compared byte for byte with header+body and must end in a TLS close. Static files (incl. text with BOM, CRLF, lone CR, Unicode separators, NUL; per-location and server-wide size limits from TOML) are compared with their bytes on disk. Handlers answer 20 and other 2x statuses, immediately or after 45 virtual seconds; a bounded pipe with a client that keeps reading; static files are rewritten (same size, time stamps kept or not) while the server runs.",
+        text="Held on the executions produced: every response stream decrypted by a real TLS client (in-process sandwich on both backends with ciphertext segmentations and a bounded pipe towards readers stalling up to 29 virtual seconds through the captured start_server wiring, plus live loopback servers with four reader profiles) is compared byte for byte with header+body and must end in a TLS close. Static files (incl. text with BOM, CRLF, lone CR, Unicode separators, NUL; per-location and server-wide size limits from TOML) are compared with their bytes on disk. Handlers answer 20 and other 2x statuses, immediately or after 45 virtual seconds; a bounded pipe with a client that keeps reading; static files are rewritten (same size, time stamps kept or not) while the server runs. 2x responses whose body cannot be sent as it is (lone surrogates, bytearray, memoryview) and index files reached through their directory are covered.",
         note="Client side is CPython ssl/OpenSSL 3.0; sizes are the listed boundary set plus random ones, not every length; CPython's own 30 s ssl_shutdown_timeout bounds how long a stalled reader can be served.",
         tech="runtime monitoring: byte-exact stream comparison at the client boundary (position-counter bodies) on L2 sandwich and L3 live sockets"),
     "C07": dict(cat="exploration",
-        text="Held on the explored segmentations: for each client byte string the single-read run is the baseline; all 2^(n-1) segmentations of short requests, all 1-/2-cut and random multi-cut ones of long requests, three schedules (burst, reads during a running handler), the real FileUploadHandler, and ciphertext cuts / multi-record reads / Finished+data coalescing on both TLS layers must reproduce response bytes, upload effect and <=1 handler entry. Uploads of 20 000 - 600 000 bytes go through both TLS layers with the ciphertext cut into reads of 16 KiB - 256 KiB.",
+        text="Held on the explored segmentations: for each client byte string the single-read run is the baseline; all 2^(n-1) segmentations of short requests, all 1-/2-cut and random multi-cut ones of long requests, three schedules (burst, reads during a running handler), the real FileUploadHandler, and ciphertext cuts / multi-record reads / Finished+data coalescing on both TLS layers must reproduce response bytes, upload effect and <=1 handler entry. Uploads of 20 000 - 600 000 bytes go through both TLS layers with the ciphertext cut into reads of 16 KiB - 256 KiB. On the PyOpenSSL pump a request followed by bytes that are no valid TLS record is delivered in one read and in two; effects are compared.",
         note="Reads after transport.close() are not delivered (sslproto semantics).",
         tech="runtime monitoring: differential comparison against the single-read baseline + handler-entry counting (L1 simulator, L2 sandwich)"),
     "C08": dict(cat="exploration",
-        text="Held on the generated lines: grammar-generated must-accept URIs, systematic corruptions and unconstrained bytes (uploads on and off, delivered in one or several reads) go through the real protocol with spy handler/middleware/upload handler; an independently written three-valued RFC 3986 recogniser decides what must be refused (and with which status) and what must arrive intact. The handler's normalized URL and the URL handed to the middleware chain are parsed back and must name the request's host and port.",
+        text="Held on the generated lines: grammar-generated must-accept URIs, systematic corruptions and unconstrained bytes (uploads on and off, delivered in one or several reads) go through the real protocol with spy handler/middleware/upload handler; an independently written three-valued RFC 3986 recogniser decides what must be refused (and with which status) and what must arrive intact. The handler's normalized URL and the URL handed to the middleware chain are parsed back and must name the request's host and port. Titan tokens containing '=' (base64 padding) are must-accept.",
         note="Grey zones (chars outside the URI alphabet, empty userinfo/fragment, ports > 65535, IPvFuture, odd titan params) are undecided and counted.",
         tech="runtime monitoring: independent URI recogniser as oracle over spy-observed handler arguments (L1 simulator)"),
     "C09": dict(cat="exploration",
@@ -52,7 +52,7 @@ CHECKS = {
         note="Writes are observed at asyncio.sslproto._SSLProtocolTransport.write.",
         tech="runtime monitoring: peer-side byte counting + client-side event-order monitor (write vs verify_return) on live TLS connections"),
     "C12": dict(cat="fault_enumeration",
-        text="Every SQL statement boundary (execute/commit on every connection, plus after-commit) of trust/verify/revoke/clear/import(merge|replace) is enumerated both as a crash point (operation runs in a forked child killed with os._exit at the boundary, file reopened) and as an injected OperationalError; import files carry each defect kind at every entry position; export->import round trips hostile host names. The table must equal the before or the after state. The command-line entry points (tofu import [--replace] / clear / revoke through typer's CliRunner) get the same enumeration; a store of mutually look-alike names (SQL wildcards, case, Unicode) checks that single-host operations touch exactly the named rows.",
+        text="Every SQL statement boundary (execute/commit on every connection, plus after-commit) of trust/verify/revoke/clear/import(merge|replace) is enumerated both as a crash point (operation runs in a forked child killed with os._exit at the boundary, file reopened) and as an injected OperationalError; import files carry each defect kind at every entry position; export->import round trips hostile host names. The table must equal the before or the after state. The command-line entry points (tofu import [--replace] / clear / revoke through typer's CliRunner) get the same enumeration; a store of mutually look-alike names (SQL wildcards, case, Unicode) checks that single-host operations touch exactly the named rows. Round trips include stores whose names differ only in letter case / Unicode form / IPv6 spelling on one port.",
         note="Crash points are statement boundaries (SQLite's byte-level commit atomicity is trusted); last_seen excluded.",
         tech="runtime monitoring with fault injection: exhaustive statement-boundary crash/error enumeration, before/after table-dump oracle"),
     "C13": dict(cat="exploration",
@@ -60,15 +60,15 @@ CHECKS = {
         note="Grey status tokens and malformed charset parameters are undecided; L3 timeouts are watchdogs, verdicts use event order.",
         tech="runtime monitoring: independent response parser as oracle + future-resolution monitor (L1 virtual loop, L3 live peers)"),
     "C14": dict(cat="fault_enumeration",
-        text="FileUploadHandler (also via ServerConfig.get_upload_handler and through the protocol) on upload trees with symlinks and prefix-sharing siblings; every stored/replaced/deleted upload is re-run with RLIMIT_FSIZE partial writes (0,1,half,size-1) and with an injected ENOSPC/EIO/EACCES at every index of the open/replace/rename/unlink/mkdir call sequence; a byte-exact diff of the directory and its surroundings plus the audit trail must show exactly one authorised change or none. One handler serves the same paths again while the upload tree is rearranged between requests; an accepted request must have changed the file its path denotes at that moment. Upload sizes go up to 4 MiB + 1 (powers of two and their neighbours); one handler also serves hundreds of requests in a row.",
+        text="FileUploadHandler (also via ServerConfig.get_upload_handler and through the protocol) on upload trees with symlinks and prefix-sharing siblings; every stored/replaced/deleted upload is re-run with RLIMIT_FSIZE partial writes (0,1,half,size-1) and with an injected ENOSPC/EIO/EACCES at every index of the open/replace/rename/unlink/mkdir call sequence; a byte-exact diff of the directory and its surroundings plus the audit trail must show exactly one authorised change or none. One handler serves the same paths again while the upload tree is rearranged between requests; an accepted request must have changed the file its path denotes at that moment. Upload sizes go up to 4 MiB + 1 (powers of two and their neighbours); one handler also serves hundreds of requests in a row. What a request declares (media type, size) is taken from the line as written, not from the parsed request; uploads followed by stray reads (back to back, during a pending chain) go through the protocol.",
         note="Single fault per request; parent-directory creation tolerated and counted.",
         tech="runtime monitoring with fault injection: tree-diff + audit-trail oracle under enumerated OS-call failpoints and real partial writes"),
     "C15": dict(cat="exploration",
-        text="Held on the explored stalls: every prefix length of representative gemini/titan requests delivered in 1-3 reads then silence (virtual clock: 40 + close at exactly 30 s, never a quiescent loop with an open transport), slow handlers/middleware never cut by the timer, both TLS layers stalled before/inside/after every client handshake flight (TLS 1.2 and 1.3, with and without client certificate), and live sockets with shortened timeouts. close_notify after an incomplete request with TCP left open; complete requests in many delivery shapes with surplus bytes in the completing read are never answered by the request timer.",
+        text="Held on the explored stalls: every prefix length of representative gemini/titan requests delivered in 1-3 reads then silence (virtual clock: 40 + close at exactly 30 s, never a quiescent loop with an open transport), slow handlers/middleware never cut by the timer, both TLS layers stalled before/inside/after every client handshake flight (TLS 1.2 and 1.3, with and without client certificate), and live sockets with shortened timeouts. close_notify after an incomplete request with TCP left open; complete requests in many delivery shapes with surplus bytes in the completing read are never answered by the request timer. Complete request lines of 900 - 1030 bytes (one read, split before / inside the CRLF) must be answered, never left to the timer.",
         note="Stdlib handshake bound is CPython's 60 s; after close CPython waits up to 30 s for the peer's close_notify (checked finite).",
         tech="runtime monitoring: virtual-time bounded-progress check (close time, quiescence with open transport) on L1/L2, live sample L3"),
     "C16": dict(cat="exploration",
-        text="Held on the explored graphs: GeminiClient.get with TOFU against three scripted TLS servers implementing redirect graphs (all graphs for N<=2 over 15 target forms, chains/cycles up to length 8, random N<=8) x max_redirects 0..6 x follow on/off; peers' connection logs and a verify() counter are compared with the harness's walk of the graph. Seven fetches in flight on one client (chains at and over the limit, cycle, self-loop) check that each keeps its own count and history. Endless chains whose every target is derived from the URL just requested; the `nauyaca get` command with --max-redirects / --no-redirects.",
+        text="Held on the explored graphs: GeminiClient.get with TOFU against three scripted TLS servers implementing redirect graphs (all graphs for N<=2 over 15 target forms, chains/cycles up to length 8, random N<=8) x max_redirects 0..6 x follow on/off; peers' connection logs and a verify() counter are compared with the harness's walk of the graph. Seven fetches in flight on one client (chains at and over the limit, cycle, self-loop) check that each keeps its own count and history. Endless chains whose every target is derived from the URL just requested; the `nauyaca get` command with --max-redirects / --no-redirects. Node queries hold URLs themselves ('://' further along is not a second scheme).",
         note="Relative/empty/upper-case-scheme/oversize/malformed targets may yield an error or the unchanged 3x.",
         tech="runtime monitoring: connection-log and verify-call monitors vs reference redirect-graph walk (live TLS peers)"),
     "C17": dict(cat="exploration",
@@ -76,15 +76,15 @@ CHECKS = {
         note="Requests outside the must-accept grammar and empty queries are grey.",
         tech="runtime monitoring: audit-hook socket monitor + upstream/decoy connection logs vs mapping oracle (live sockets)"),
     "C18": dict(cat="fault_enumeration",
-        text="Raw TLS client -> start_server proxy (short location timeout for the stall stages, generous ones elsewhere) -> scripted upstream: well-formed responses of every status class, media type and declared charset must arrive byte-identical; each fault stage (refused, TLS failure, close/reset before/mid header, garbage headers, reset mid-body, stalls at each stage, oversize body) must yield exactly one well-formed 43 and a server that keeps serving; redirects to a decoy are relayed, early-disconnecting clients tolerated; 2-4 downstream requests in flight through one location must each get their own relay (or their own 43). Locations from a configuration file (timeout given / omitted) wired by start_server against a silent upstream in virtual time: 43 at the location's timeout.",
+        text="Raw TLS client -> start_server proxy (short location timeout for the stall stages, generous ones elsewhere) -> scripted upstream: well-formed responses of every status class, media type and declared charset must arrive byte-identical; each fault stage (refused, TLS failure, close/reset before/mid header, garbage headers, reset mid-body, stalls at each stage, oversize body) must yield exactly one well-formed 43 and a server that keeps serving; redirects to a decoy are relayed, early-disconnecting clients tolerated; 2-4 downstream requests in flight through one location must each get their own relay (or their own 43). Locations from a configuration file (timeout given / omitted) wired by start_server against a silent upstream in virtual time: 43 at the location's timeout. One wired location meets up to 70 connect-stage failures in a row (refused, unroutable, handshake failure, name resolution, reset, timeout) and then an upstream that is back.",
         note="A cleanly truncated 2x body cannot be told from a complete one; upstream metas with bare CR/LF or >1024 bytes may be 43 or sanitised.",
         tech="runtime monitoring with fault injection: downstream/upstream byte comparison and response automaton under scripted upstream faults (live sockets)"),
     "C19": dict(cat="exploration",
-        text="Held on the generated URLs: every grammar-generated or mutated URL the library accepts is normalised, re-parsed, compared (host, port, path, query) with the independent RFC 3986 split and re-normalised; live round trips GeminiClient.get -> server on 127.0.0.1/localhost/[::1] compare what the handler sees with what the caller asked for.",
+        text="Held on the generated URLs: every grammar-generated or mutated URL the library accepts is normalised, re-parsed, compared (host, port, path, query) with the independent RFC 3986 split and re-normalised; live round trips GeminiClient.get -> server on 127.0.0.1/localhost/[::1] compare what the handler sees with what the caller asked for. Every other shard judges its URLs in a process that has first used the client (redirects of every shape, uploads, a pin store); live round trips include URLs holding scheme-like text.",
         note="Host comparison case-insensitive; '' == '/' for paths; empty query == no query.",
         tech="runtime monitoring: round-trip/idempotence oracle against an independent URI recogniser (L0 calls, L3 live client/server)"),
     "C20": dict(cat="exploration",
-        text="Held on the probed cells: real handshakes offering exactly one protocol version (TLS 1.0-1.3, SECLEVEL 0) against all four start_server construction paths and both factory functions with client-cert request on/off; client contexts (TOFU, CA, GeminiClient.get) against peers capped at TLS 1.0/1.1; plaintext and random bytes to every server variant, and (virtual time, both TLS layers) peers that send nothing / a few bytes / partial records and then wait past every timeout - everything ever written to the raw socket is inspected. Each refusal is paired with a control peer proving the old version is otherwise negotiable here. Certificate / key files that are out of order at start-up (nine kinds): refuse to start or listen with TLS; what the `nauyaca serve` command listens with is probed for clear text and, at security level 0, for the version floor. Servers that follow one another in one process (built, lowered to security level 0, probed, collected) are each offered TLS 1.1; the controls use PyOpenSSL / ssl directly, never nauyaca code.",
+        text="Held on the probed cells: real handshakes offering exactly one protocol version (TLS 1.0-1.3, SECLEVEL 0) against all four start_server construction paths and both factory functions with client-cert request on/off; client contexts (TOFU, CA, GeminiClient.get) against peers capped at TLS 1.0/1.1; plaintext and random bytes to every server variant, and (virtual time, both TLS layers) peers that send nothing / a few bytes / partial records and then wait past every timeout - everything ever written to the raw socket is inspected. Each refusal is paired with a control peer proving the old version is otherwise negotiable here. Certificate / key files that are out of order at start-up (nine kinds): refuse to start or listen with TLS; what the `nauyaca serve` command listens with is probed for clear text and, at security level 0, for the version floor. Servers that follow one another in one process (built, lowered to security level 0, probed, collected) are each offered TLS 1.1; the controls use PyOpenSSL / ssl directly, never nauyaca code. The serve command is also started with its material given through NAUYACA_* variables; every other successive context is built under an operator-like environment (OPENSSL_CONF, SSL_CERT_FILE, SSLKEYLOGFILE).",
         note="SSLv3 cannot be offered by this interpreter (recorded as unreachable).",
         tech="runtime monitoring: control-validated handshake probing and plaintext probes on live sockets"),
 }
